@@ -9,14 +9,24 @@ IntArr = z3.ArraySort(z3.IntSort(), z3.IntSort())
 SLICE = z3.Function("slice", IntArr, z3.IntSort(), IntArr)
 BUILD = z3.Function("build", Fn.sort(), LInt.sort(), LEdge.sort())
 PERM = z3.Function("perm", LInt.sort(), LInt.sort(), z3.BoolSort())
+COUNT = z3.Function("count", LInt.sort(), z3.IntSort(), z3.IntSort(), z3.IntSort())
+PIDX = z3.Function("perm_idx", LInt.sort(), LInt.sort(), z3.IntSort(), z3.IntSort())
 
 def build(reg):
     import contracts.joint_degree as J
     if "colsum" not in reg.specfuns: reg.specfun("colsum", [("jds", JDS), ("c", INT), ("n", INT)], INT, base="0", rec="colsum(jds, c, n - 1) + jds[n - 1][c]")
     reg.type("Edge", Edge); reg.type("Name", Name)
+    reg.specfun("count", [("xs", LInt), ("v", INT), ("n", INT)], INT, base="0", rec="count(xs, v, n - 1) + (1 if xs[n - 1] == v else 0)")
     a, p, t = z3.Const("a_", IntArr), z3.Int("p_"), z3.Int("t_"); x, y = z3.Consts("x_ y_", LInt.sort()); f = z3.Const("f_", Fn.sort())
     reg.axioms += [("slice.def", z3.ForAll([a, p, t], z3.Select(SLICE(a, p), t) == z3.Select(a, p + t), patterns=[z3.Select(SLICE(a, p), t)]), "definition of the slice view"),
                    ("perm.len", z3.ForAll([x, y], z3.Implies(PERM(x, y), LInt.len(x) == LInt.len(y)), patterns=[PERM(x, y)]), "a permutation has the same length"),
+                   ("perm.reflexive", z3.ForAll([x], PERM(x, x), patterns=[PERM(x, x)]), "the identity is a permutation"),
+                   ("perm.index_map", z3.ForAll([x, y, p], z3.Implies(z3.And(PERM(x, y), 0 <= p, p < LInt.len(x)), z3.And(0 <= PIDX(x, y, p), PIDX(x, y, p) < LInt.len(y), LInt.at(x, p) == LInt.at(y, PIDX(x, y, p)))),
+                                     patterns=[z3.MultiPattern(PERM(x, y), LInt.at(x, p))]), "a permutation re-reads the original through an index map"),
+                   ("perm.index_map_injective", z3.ForAll([x, y, p, t], z3.Implies(z3.And(PERM(x, y), 0 <= p, p < t, t < LInt.len(x)), PIDX(x, y, p) != PIDX(x, y, t)),
+                                     patterns=[z3.MultiPattern(PIDX(x, y, p), PIDX(x, y, t))]), "... which is injective (hence a bijection of the index range)"),
+                   ("perm.multiplicities", z3.ForAll([x, y, t], z3.Implies(PERM(x, y), COUNT(x, t, LInt.len(x)) == COUNT(y, t, LInt.len(y))), patterns=[z3.MultiPattern(PERM(x, y), COUNT(x, t, LInt.len(x)))]),
+                                     "M-COUNT: a permutation preserves the number of occurrences of every value (assumed consequence of bijectivity)"),
                    ("build.len", z3.ForAll([f, x], LEdge.len(BUILD(f, x)) >= 0, patterns=[BUILD(f, x)]), "a callback returns a sequence")]
     def blk(ex, fns, sizes, stubs, rec_k, rec_pos, m):
         k = z3.Select(rec_k.z, m.z); pos = z3.Select(rec_pos.z, m.z); kl = LLInt.at(stubs.z, k)
@@ -33,7 +43,11 @@ def build(reg):
                 cs = ex.apply_specfun(reg.specfuns["colsum"], [jds, Val(INT, k), Val(INT, JDS.len(jds.z))]).z
                 pc.append(LLInt.len(out.z) == T); pc.extend(wf(out))
                 pc.append(z3.ForAll([k], z3.Implies(z3.And(0 <= k, k < T), LInt.len(LLInt.at(out.z, k)) == cs)))
-                ex.assumptions.add("flatten-repeat idiom: stubs[k] = [v]*jds[v][k] for v in 0..N-1, so len(stubs[k]) = colsum(k)")
+                v, pp = fresh_int("v"), fresh_int("p"); N = JDS.len(jds.z); col = lambda kk: LLInt.at(out.z, kk)
+                cnt = ex.apply_specfun(reg.specfuns["count"], [Val(LInt, col(k)), Val(INT, v), Val(INT, LInt.len(col(k)))]).z
+                pc.append(z3.ForAll([k, v], z3.Implies(z3.And(0 <= k, k < T, 0 <= v, v < N), cnt == JD.at(JDS.at(jds.z, v), k))))
+                pc.append(z3.ForAll([k, pp], z3.Implies(z3.And(0 <= k, k < T, 0 <= pp, pp < LInt.len(col(k))), z3.And(0 <= LInt.at(col(k), pp), LInt.at(col(k), pp) < N)), patterns=[LInt.at(col(k), pp)]))
+                ex.assumptions.add("flatten-repeat idiom: stubs[k] = [v]*jds[v][k] for v in 0..N-1: len(stubs[k]) = colsum(k), vertex v occurs exactly jds[v][k] times, every entry is an enumerate index in 0..N-1")
                 return out
             return None
         if not isinstance(n, ast.Call): return None
@@ -44,7 +58,7 @@ def build(reg):
         if src.startswith("random.shuffle("):
             root, steps = ex.path_of(n.args[0], st, pc); old = ex.read_path(st, root, steps)
             new = fresh(old.t, "shuf"); pc.append(PERM(new.z, old.z)); pc.extend(wf(new)); ex.write_path(st, root, steps, new)
-            ex.rng_log.append(("shuffle", new.z)); ex.assumptions.add("random.shuffle(xs) replaces xs by an arbitrary permutation of itself")
+            ex.rng_log.append(("shuffle", new.z)); ex.assumptions.add("random.shuffle(xs) replaces xs by an arbitrary permutation of itself (new[p] = old[pi(p)] for a bijection pi of the index range; multiplicities preserved: M-COUNT)")
             return Val(NONE, z3.BoolVal(True))
         if isinstance(n.func, ast.Subscript) and ast.unparse(n.func.value) == "self._build_functions":
             fn = ex.expr(n.func, st, pc); arg = ex.expr(n.args[0], st, pc)
@@ -80,20 +94,43 @@ def build(reg):
         "chain": f"forall(m, 0, gen - 1, rec_start[m + 1] == rec_start[m] + len({BLK.format(m='m')}))",
         "chainN": f"(rec_start[gen - 1] + len({BLK.format(m='gen - 1')}) == len({E}._edge_list)) if gen > 0 else (len({E}._edge_list) == 0)",
         "stubs": "len(stubs) == T", "lens": "forall(c, 0, T, len(stubs[c]) == colsum(jds, c, len(jds)))"}
-    m.fn("GCMAlgorithmFast.random_clustered_graph", params={"jds": JDS, "T": INT, "rec_k": ARR, "rec_pos": ARR, "rec_start": ARR},
-      ghost=["T", "rec_k", "rec_pos", "rec_start"], ret=me.classes["LightWeightEdgeList"].ty,
+    OUT = {"t_start": "forall(m, 0, gen, implies(m == 0 or rec_k[m - 1] != rec_k[m], rec_pos[m] == 0))", "t_step": "forall(m, 0, gen - 1, implies(rec_k[m + 1] == rec_k[m], rec_pos[m + 1] == rec_pos[m] + self._motif_sizes[rec_k[m]]))", "t_order": "forall(m, 0, gen - 1, rec_k[m] <= rec_k[m + 1])", "t_range": "forall(m, 0, gen, 0 <= rec_k[m] and rec_k[m] < T and rec_pos[m] >= 0)", "t_end": "forall(m, 0, gen, implies((m == gen - 1 or rec_k[m + 1] != rec_k[m]), rec_pos[m] + self._motif_sizes[rec_k[m]] == len(stubs[rec_k[m]])))", "t_all": "forall(c, 0, IT, implies(len(stubs[c]) > 0, 0 <= rec_last[c] and rec_last[c] < gen and rec_k[rec_last[c]] == c))"}
+    INN = {"t_start": "forall(m, 0, gen, implies(m == 0 or rec_k[m - 1] != rec_k[m], rec_pos[m] == 0))", "t_step": "forall(m, 0, gen - 1, implies(rec_k[m + 1] == rec_k[m], rec_pos[m + 1] == rec_pos[m] + self._motif_sizes[rec_k[m]]))", "t_order": "forall(m, 0, gen - 1, rec_k[m] <= rec_k[m + 1])", "t_range": "forall(m, 0, gen, 0 <= rec_k[m] and rec_k[m] < T and rec_pos[m] >= 0)", "t_end_prev": "forall(m, 0, gen, implies(rec_k[m] < k and (m == gen - 1 or rec_k[m + 1] != rec_k[m]), rec_pos[m] + self._motif_sizes[rec_k[m]] == len(stubs[rec_k[m]])))", "t_cur": "(forall(m, 0, gen, rec_k[m] < k)) if POS == 0 else (gen > 0 and rec_k[gen - 1] == k and rec_pos[gen - 1] + self._motif_sizes[k] == POS)", "t_all": "forall(c, 0, k, implies(len(stubs[c]) > 0, 0 <= rec_last[c] and rec_last[c] < gen and rec_k[rec_last[c]] == c))"}
+    ENS = {"t_start": "forall(m, 0, gen, implies(m == 0 or rec_k[m - 1] != rec_k[m], rec_pos[m] == 0))", "t_step": "forall(m, 0, gen - 1, implies(rec_k[m + 1] == rec_k[m], rec_pos[m + 1] == rec_pos[m] + self._motif_sizes[rec_k[m]]))", "t_order": "forall(m, 0, gen - 1, rec_k[m] <= rec_k[m + 1])", "t_range": "forall(m, 0, gen, 0 <= rec_k[m] and rec_k[m] < T and rec_pos[m] >= 0)", "t_end": "forall(m, 0, gen, implies((m == gen - 1 or rec_k[m + 1] != rec_k[m]), rec_pos[m] + self._motif_sizes[rec_k[m]] == len(stubs[rec_k[m]])))", "t_all": "forall(c, 0, T, implies(len(stubs[c]) > 0, 0 <= rec_last[c] and rec_last[c] < gen and rec_k[rec_last[c]] == c))"}
+    m.fn("GCMAlgorithmFast.random_clustered_graph", params={"jds": JDS, "T": INT, "rec_k": ARR, "rec_pos": ARR, "rec_start": ARR, "rec_last": ARR},
+      ghost=["T", "rec_k", "rec_pos", "rec_start", "rec_last"], ret=me.classes["LightWeightEdgeList"].ty,
       requires={"N": "len(jds) >= 1", "T": "T >= 0 and len(self._motif_sizes) == T and len(self._edge_names) == T and len(self._build_functions) == T",
                 "rows": "forall(v, 0, len(jds), len(jds[v]) == T and forall(c, 0, T, jds[v][c] >= 0))",
                 "sizes": "forall(c, 0, T, self._motif_sizes[c] >= 1)",
                 "handshake": "forall(c, 0, T, colsum(jds, c, len(jds)) % self._motif_sizes[c] == 0)"},
       ensures={"columns_parallel": "len(result._edge_list) == len(result._topologies) and len(result._edge_list) == len(result._motif_id)",
-               "jds_carried": "result._joint_degrees == old(jds)"},
+               "jds_carried": "result._joint_degrees == old(jds)",
+               **{"tiling." + k_[2:]: v_ for k_, v_ in ENS.items()},
+               "slots_per_vertex": "forall(c, 0, T, forall(v, 0, len(jds), count(stubs[c], v, len(stubs[c])) == jds[v][c]))",
+               "vertices_in_range": "forall(c, 0, T, forall(p, 0, len(stubs[c]), 0 <= stubs[c][p] and stubs[c][p] < len(jds)))",
+               "stub_lists_are_the_column_sums": "len(stubs) == T and forall(c, 0, T, len(stubs[c]) == colsum(jds, c, len(jds)))",
+               "jds_unmodified": "jds == old(jds)"},
       loops={0: dict(snap={"stubs0": "stubs"}, inv={"len": "len(stubs) == T", "lens0": "forall(c, 0, T, len(stubs0[c]) == colsum(jds, c, len(jds)))",
-                     "done": "forall(c, 0, IT, perm(stubs[c], stubs0[c]))", "todo": "forall(c, IT, T, stubs[c] == stubs0[c])"}),
-             1: dict(inv={**COLS, "reck": "forall(m, 0, gen, 0 <= rec_k[m] and rec_k[m] < IT)"}),
-             2: dict(inv={**COLS, "reck": "forall(m, 0, gen, 0 <= rec_k[m] and rec_k[m] <= k)",
+                     "done": "forall(c, 0, IT, perm(stubs[c], stubs0[c]))", "todo": "forall(c, IT, T, stubs[c] == stubs0[c])",
+                     "canon_counts": "forall(c, 0, T, forall(v, 0, len(jds), count(stubs0[c], v, len(stubs0[c])) == jds[v][c]))",
+                     "canon_range": "forall(c, 0, T, forall(p, 0, len(stubs0[c]), 0 <= stubs0[c][p] and stubs0[c][p] < len(jds)))", "jds": "jds == old(jds)"}),
+             1: dict(inv={**COLS, **OUT, "reck": "forall(m, 0, gen, 0 <= rec_k[m] and rec_k[m] < IT)", "jdsin": "jds == old(jds)",
+                          "slots": "forall(c, 0, T, forall(v, 0, len(jds), count(stubs[c], v, len(stubs[c])) == jds[v][c]))",
+                          "vrange": "forall(c, 0, T, forall(p, 0, len(stubs[c]), 0 <= stubs[c][p] and stubs[c][p] < len(jds)))"}),
+             2: dict(inv={**COLS, **INN, "reck": "forall(m, 0, gen, 0 <= rec_k[m] and rec_k[m] <= k)", "jdsin": "jds == old(jds)",
+                          "slots": "forall(c, 0, T, forall(v, 0, len(jds), count(stubs[c], v, len(stubs[c])) == jds[v][c]))",
+                          "vrange": "forall(c, 0, T, forall(p, 0, len(stubs[c]), 0 <= stubs[c][p] and stubs[c][p] < len(jds)))",
                           "full": "len(stubs[k]) % self._motif_sizes[k] == 0 and len(stubs[k]) >= 0 and self._motif_sizes[k] >= 1",
                           "pos": "POS <= len(stubs[k])", "posmod": "POS % self._motif_sizes[k] == 0", "k": "0 <= k and k < T"},
                      hints={"full_group": "POS + self._motif_sizes[k] <= len(stubs[k])"},
-                     ghost_end=["rec_k[id] = k", "rec_pos[id] = POS", f"rec_start[id] = len({E}._edge_list) - len(es)"])})
+                     ghost_end=["rec_k[id] = k", "rec_pos[id] = POS", "rec_last[k] = id", f"rec_start[id] = len({E}._edge_list) - len(es)"])})
+    def only_shuffles(reg_):
+        d = reg_.find_def("gcmpy/gcm_algorithm/gcm_algorithm_fast.py", "GCMAlgorithmFast.random_clustered_graph")
+        calls = [n for n in ast.walk(d) if isinstance(n, ast.Call) and ast.unparse(n.func).startswith("random.")]
+        ok = len(calls) == 1 and ast.unparse(calls[0].func) == "random.shuffle"
+        loops = [n for n in d.body if isinstance(n, ast.For)]
+        first = loops[0] if loops else None
+        ok = ok and first is not None and ast.unparse(first.iter) == "stubs" and any(c is calls[0] for c in ast.walk(first)) and ast.unparse(calls[0].args[0]) == ast.unparse(first.target)
+        return ok, "exactly one random.* call site: random.shuffle(<loop variable>) inside `for ... in stubs` preceding the grouping loop" if ok else f"random call sites: {[ast.unparse(c)[:40] for c in calls]}"
+    reg.static_checks.append(("GCMAlgorithmFast.random_clustered_graph:static.only_randomness_is_one_shuffle_per_stub_list", only_shuffles))
     return ["LightWeightEdgeList.__init__", "GCMAlgorithmFast.random_clustered_graph"]
